@@ -180,7 +180,7 @@ def main(argv=None):
             elif r["verdict"] == "refuted":
                 harness_errors.append(f"{name}: counterexample in known-finding region does not replay: {r.get('replay')}")
             elif r["verdict"] == "discharged":
-                notes.append(f"{name}: listed finding no longer reproduces (region discharged)")
+                notes.append(f"{name}: no violation inside the listed finding's region under this obligation's bounds (region discharged)")
                 n_dis += 1
             elif r["verdict"] == "harness_error":
                 harness_errors.append(f"{name}: {r['messages']}")
